@@ -39,7 +39,7 @@ def prop(pid, **kw):
 prop(
     "C01", level="proof", trusted_base=TB_E1, selftest=["algorithms", "block_diagonalization"],
     rules=[main_e1, wf_main, e1b.rule_projection_pairs, e1b.rule_scope_flags, diag_solver_real,
-           e2.rule_product_by_order, e2.rule_adjoint_fill],
+           e2.rule_product_by_order, e2.rule_adjoint_fill, e4.rule_value_preserving],
     explanation=(
         "Every `with` block of algorithms.py::main is read from the current source and its defining equation is "
         "discharged as a polynomial identity in a free *-algebra (atoms H_0, H'_S, H'_R, W, V; opaque selected-part "
@@ -62,7 +62,7 @@ prop(
 
 prop(
     "C03", level="proof", trusted_base=TB_E1, selftest=["algorithms"],
-    rules=[main_e1, wf_main, e1b.rule_projection_pairs],
+    rules=[main_e1, wf_main, e1b.rule_projection_pairs, e1b.rule_scope_flags],
     explanation=(
         "Gauge obligations of the E1 certificate: the anti-Hermitian part of the interpretation of U' is V, S[V] = 0 "
         "(V has only an `offdiagonal` branch), W is Hermitian; together with the well-founded (acyclic same-order) "
@@ -82,7 +82,7 @@ prop(
 
 prop(
     "C05", level="other", selftest=["algorithms"],
-    rules=[nh_e1, wf_nh, e1b.rule_scope_flags, e1b.rule_projection_pairs, e7.rule_diagonal_solver],
+    rules=[nh_e1, wf_nh, e1b.rule_scope_flags, e1b.rule_projection_pairs, e7.rule_diagonal_solver, e4.rule_value_preserving],
     explanation=(
         "E1 certificate of algorithms.py::nonhermitian (atoms H_0, H'_S, H'_R, U', U_inv'; rules U_inv U = U U_inv = 1, "
         "gauge S[U_inv'] = S[U']): inverse relations, gauge, Sylvester equation, elimination, B and H_tilde are "
@@ -120,14 +120,16 @@ prop(
 
 prop(
     "C09", level="translation_validation", selftest=["algorithm_parsing"],
-    rules=[e9.rule_translation, wf_all, e2.rule_adjoint_fill],
+    rules=[e9.rule_translation, e9.rule_translation_corpus, wf_all, e2.rule_adjoint_fill],
     explanation=(
         "The repository's own _parse_algorithm is queried (subprocess, tree under analysis) for the generated "
         "series_eval ASTs of `main`, `nonhermitian` and the documented example; each is interpreted abstractly per "
         "index class {diagonal, upper, lower} x {offdiag given, not} x flag combination into a linear combination of "
         "term references and compared with a reference translation made by an independent reader of the documented "
-        "grammar. Deletions are only checked against two safety facts (never an input, never an output). The claim "
-        "over all programs of the grammar is not decided; the documented example fails (known finding K2)."),
+        "grammar. The same comparison is made for a generated corpus of 42 programs that exercises every construct of the "
+        "documented grammar in every branch position (nested subtractions and unary minus, divisions of groups, adjoints, "
+        "nested scope functions, products, zero, both flags, markers). Deletions are only checked against two safety facts "
+        "(never an input, never an output). The claim over all programs of the grammar is not decided."),
 )
 
 prop(
@@ -167,7 +169,7 @@ prop(
 
 prop(
     "C13", level="other", selftest=["series", "block_diagonalization"],
-    rules=[e2.rule_product_by_order, wf_all, e2b.rule_key_normalisation, e2b.rule_order_preserving_evals],
+    rules=[e2.rule_product_by_order, wf_all, e2b.rule_key_normalisation, e2b.rule_order_preserving_evals, e2b.rule_taylor],
     explanation=(
         "Narrow claim: order components are handled uniformly and split exactly (product_by_order rules), every DSL "
         "summand is a rational multiple of exactly one series/product reference under linear scope functions (element n "
@@ -179,7 +181,7 @@ prop(
 prop(
     "C14", level="other", selftest=["block_diagonalization"],
     rules=[e6.rule_projector_call_sites, e2b.rule_taylor, e2b.rule_order_preserving_evals, e2b.rule_key_normalisation,
-           e5.rule_total_callbacks, e2.rule_adjoint_fill],
+           e5.rule_total_callbacks, e2.rule_adjoint_fill, e4.rule_value_preserving],
     explanation=(
         "Narrow claim: operator_to_BlockSeries returns L_i† A R_j (projector families, argument order of every "
         "ComplementProjector construction, Hermitian fill), the Taylor recurrence of symbolic input is consistent "
@@ -191,7 +193,7 @@ prop(
 prop(
     "C16", level="other", selftest=["block_diagonalization", "linalg", "second_quantization"],
     rules=[e7.rule_diagonal_solver, e7.rule_shared_eigenvalue_check, e7.rule_direct_solver, e7.rule_greens_function,
-           e7.rule_solve_scalar, e6.rule_projector],
+           e7.rule_solve_scalar, e6.rule_projector, e4.rule_value_preserving],
     explanation=(
         "Sibling cross-check of the solver implementations against the contract H0_i T - T H0_j = Y: orientation "
         "E_i[row] - E_j[col], positive sign and zero-guard of each of the five branches of the diagonal solver; sign / "
@@ -218,7 +220,7 @@ prop(
 
 prop(
     "C18", level="other", selftest=["series"],
-    rules=[e2.rule_product_by_order, e2.rule_cauchy_wiring, e2.rule_adjoint_fill, main_e1],
+    rules=[e2.rule_product_by_order, e2.rule_cauchy_wiring, e2.rule_adjoint_fill, main_e1, e4.rule_value_preserving],
     explanation=(
         "product_by_order: order box, complementary orders, index wiring (start, middle, *o1) / (middle, end, *o2), "
         "presence test dominating every load, zero-skip, multiplicity table of the Hermitian half-sum, operator "
